@@ -210,6 +210,24 @@ def run(ctx):
             if vd != "ok":
                 ctx.violation("v%s:clean-vector-not-in-grammar" % v, "the clean vector of an accepted string is not a valid vector of the version's grammar",
                               t, "a valid v%s vector" % v, c, replay={"kind": "accepted", "ver": v, "s": t})
+    from .. import conc
+    conc.pickle_across(ctx, [(ver, s) for ver, pfx, a, s, o in built[:: max(1, len(built) // 80)]], "canonical-form")
+    conc.flag_variants(ctx, [["C", ver, s] for ver, pfx, a, s, o in built[:: max(1, len(built) // 100)]], "canonical-form")
+    # the output_prefix flag is a truth value: any truthy / falsy argument behaves like True / False
+    for ver, pfx, a, s, o in built[:: max(1, len(built) // 300)]:
+        if ver == "2":
+            continue
+        for flag in (0, None, "", [], (), 0.0, 1, 2, "yes", (0,), [0], -1, 1.5):
+            try:
+                got = o.clean_vector(output_prefix=flag)
+                want = o.clean_vector(output_prefix=bool(flag))
+            except Exception as ex:  # noqa
+                got, want = "raised %r" % ex, "the result for %r" % bool(flag)
+            ctx.count()
+            if got != want:
+                ctx.violation("v%s:clean_vector-flag-not-a-truth-value" % ver, "clean_vector(output_prefix=%r) differs from output_prefix=%r" % (flag, bool(flag)),
+                              s, want, got, replay={"kind": "single", "ver": ver, "s": s, "assignment": a, "prefix": pfx})
+                break
     # other types
     for ver, pfx, a, s, o in built[:200]:
         for other in (s, None, 0, o.clean_vector(), (s,), object()):
